@@ -429,7 +429,7 @@ def gen_spec(rng, n_items=(4, 14), p_dist=0.5, p_transient=0.3, p_vec=0.35, seed
     return items
 
 
-HOWS = ["instance", "class", "default", "auto", "gb_instance", "gb_class", "gb_default"]
+HOWS = ["instance", "class", "class_pos", "default", "auto", "gb_instance", "gb_class", "gb_default"]
 HAS_DEFAULT = ("gamma", "exponential", "beta", "halfnormal", "lognormal", "invgamma", "uniform_lw")
 
 
@@ -534,6 +534,10 @@ def apply_transform(b: Built, v: Var, tr: dict):
         if how == "class":
             cls, kw = BIJ_CLASS[tr["bij"]]
             return v.transform(cls, **{kw: arg})
+        if how == "class_pos":
+            # the bijector argument handed over positionally
+            cls, kw = BIJ_CLASS[tr["bij"]]
+            return v.transform(cls, arg)
         if how == "default":
             return v.transform(None)
         if how == "gb_instance":
